@@ -70,6 +70,7 @@ type FuncContract struct {
 	Lemma      bool // ghost function defined in spec file; verified like code
 	Lets       [][2]string
 	Options    map[string]bool
+	Defines    []*Clause // assumed by callers, not an obligation: defines an uninterpreted ghost function by the function's behaviour
 }
 
 type PkgContracts struct {
@@ -81,7 +82,7 @@ type PkgContracts struct {
 	Imports map[string]string // name -> path (union over package files)
 }
 
-var kwRe = regexp.MustCompile(`^(func|lemma|let|option|requires|ensures|canary|modifies|loop|inline|trusted|assumes|returns)\b`)
+var kwRe = regexp.MustCompile(`^(func|lemma|let|option|requires|ensures|defines|canary|modifies|loop|inline|trusted|assumes|returns)\b`)
 
 func parseContractFile(path string, pc *PkgContracts) error {
 	data, err := os.ReadFile(path)
@@ -177,7 +178,7 @@ func parseContractFile(path string, pc *PkgContracts) error {
 				cur.Trusted = true
 			case "assumes":
 				cur.Assumes = append(cur.Assumes, rest)
-			case "requires", "ensures", "canary":
+			case "requires", "ensures", "canary", "defines":
 				c := &Clause{Kind: kw, Text: rest, Line: i + 1}
 				if strings.HasPrefix(rest, "[") {
 					if j := strings.Index(rest, "]"); j > 0 {
@@ -192,6 +193,8 @@ func parseContractFile(path string, pc *PkgContracts) error {
 					cur.Ensures = append(cur.Ensures, c)
 				case "canary":
 					cur.Canaries = append(cur.Canaries, c)
+				case "defines":
+					cur.Defines = append(cur.Defines, c)
 				}
 				last = c
 			case "modifies":
@@ -645,6 +648,9 @@ func genOverlay(pc *PkgContracts, files []*ast.File, specDir string) (string, er
 		for i, c := range fc.Canaries {
 			emit(c, fmt.Sprintf("govc__%s__can%d", fc.Mangled, i), nil, true)
 		}
+		for i, c := range fc.Defines {
+			emit(c, fmt.Sprintf("govc__%s__def%d", fc.Mangled, i), nil, true)
+		}
 		emitMod := func(c *Clause, name string, extra []string) {
 			c.Fn = name
 			it := applyLets(fc, c.Text)
@@ -710,12 +716,20 @@ func genOverlay(pc *PkgContracts, files []*ast.File, specDir string) (string, er
 	sb.WriteString("// Code generated by govc; overlay only, never written to the repository.\n\n")
 	fmt.Fprintf(&sb, "package %s\n\n", pc.Name)
 	imports := map[string]string{}
-	for name := range usedImports {
-		imports[name] = pc.Imports[name]
+	// import exactly what the generated text uses (string literals and comments ignored)
+	cmt := regexp.MustCompile(`(?m)//.*$`)
+	full := strLit.ReplaceAllString(cmt.ReplaceAllString(pre.String()+body.String(), ""), `""`)
+	for name, path := range pc.Imports {
+		if regexp.MustCompile(`\b` + regexp.QuoteMeta(name) + `\.`).MatchString(full) {
+			imports[name] = path
+		}
 	}
 	for n, p := range specImports {
-		imports[n] = p
+		if regexp.MustCompile(`\b` + regexp.QuoteMeta(n) + `\.`).MatchString(full) {
+			imports[n] = p
+		}
 	}
+	_ = usedImports
 	var ins []string
 	for n := range imports {
 		ins = append(ins, n)
